@@ -915,6 +915,16 @@ def main(argv=None):
     except ValueError:
         seed = 0
     prop = importlib.import_module("harness.props." + a.prop.lower())
-    if a.replay:
-        return run_replay(prop, a.replay)
-    return run_check(prop, tier, seed)
+    # One run per property at a time: the generated Coq files, the proof build and the extracted model of
+    # a property are shared state under coq/, and runs against different trees (VERIF_REPO) would otherwise
+    # overwrite each other's generated model.  Different properties still run in parallel.
+    os.makedirs(stg.CACHE, exist_ok=True)
+    lock = open(os.path.join(stg.CACHE, "run-%s.lock" % prop.ID), "w")
+    fcntl.flock(lock, fcntl.LOCK_EX)
+    try:
+        if a.replay:
+            return run_replay(prop, a.replay)
+        return run_check(prop, tier, seed)
+    finally:
+        fcntl.flock(lock, fcntl.LOCK_UN)
+        lock.close()
